@@ -368,6 +368,74 @@ object Service {
   }
 }
 `,
+			// fields carrying validation rules AND list rules at once: (buf.validate.field) and (j5.list.v1.field) have the
+			// same short name and the same index in their defining files, and a generated file has no source lines,
+			// so only the qualified name orders them (enum fields always get defined_only; `!` adds required)
+			"foo/v1/d.j5s": `package foo.v1
+
+object Listed {
+  field status enum:Kind {
+    listRules.filtering.filterable = true
+  }
+  field inlineStatus enum {
+    option P
+    option Q
+    rules.in = ["Q"]
+    listRules.filtering.filterable = true
+  }
+  field name string {
+    rules.minLength = 1
+    listRules.searching.searchable = true
+  }
+  field count integer:INT64 {
+    rules.maximum = 5000000000
+    listRules.sorting.sortable = true
+  }
+  field flag ! bool {
+    listRules.filtering.filterable = true
+  }
+  field listedId ! key:id62 {
+    listRules.filtering.filterable = true
+  }
+  field since ! date {
+    listRules.filtering.filterable = true
+  }
+  field statuses array:enum:Kind {
+    rules.minItems = 1
+    items.enum.listRules.filtering.filterable = true
+  }
+}
+
+enum Shade {
+  info hex {
+    label = "hex"
+  }
+  info Hex {
+    label = "Hex"
+  }
+  info HEX {
+    label = "HEX"
+  }
+  info area {
+    label = "area"
+  }
+  info Zone {
+    label = "Zone"
+  }
+  option RED {
+    info.hex = "ff0000"
+    info.Hex = "FF0000"
+    info.HEX = "#FF0000"
+    info.area = "a"
+    info.Zone = "z"
+  }
+  option BLUE {
+    info.Zone = "y"
+    info.HEX = "#0000FF"
+    info.hex = "0000ff"
+  }
+}
+`,
 			"bar/v1/a.j5s": `package bar.v1
 
 import foo.v1:foo
